@@ -14,7 +14,7 @@ from vfw.schema import T
 BOUNDS = ("containers SEQUENCE and SET {id INTEGER, blob ANY DEFINED BY id}, blob untagged / [3] IMPLICIT / [3] EXPLICIT, and SET OF ANY / SEQUENCE OF ANY blobs (0..2 "
           "elements); default map {1: INTEGER, 2: OCTET STRING, 3: SEQUENCE{x INTEGER, y BOOLEAN DEFAULT FALSE}, 4: SEQUENCE OF INTEGER}; governing value g in {0, mapped key, 5, 6, 2} "
           "(mapped, unmapped, mapped only by the caller's override); inner values symbolic (integers |n| <= 300, octets <= 2, 0..2 elements); codecs BER definite, BER indefinite, CER, DER; "
-          "decodeOpenTypes on/off; caller map {5: INTEGER, 2: INTEGER} (adding a key and redefining a key of the default map) present/absent")
+          "one-shot decode and StreamingDecoder; decodeOpenTypes on/off; caller map {5: INTEGER, 2: INTEGER} (adding a key and redefining a key of the default map) present/absent")
 OUTSIDE = "OID-governed maps (the governing value is hashed either way); maps to CHOICE; nested open types"
 
 I_T = T("INT")
@@ -74,7 +74,7 @@ def _resolved_which(g, override):
     return None
 
 
-def opentype_rt(container, tagging, vector, codec, gsel, which, n, o0, o1, f0, k, nelem, resolve, override):
+def opentype_rt(container, tagging, vector, codec, gsel, which, n, o0, o1, f0, k, nelem, resolve, override, streaming=False):
     # governing value: 0 = unmapped (0), 1 = the key mapped to the inner value's type, 2 = 5 (mapped only by the caller's override), 3 = 6 (unmapped),
     # 4 = 2 (mapped by the default map AND redefined by the caller's override)
     g = (0, which, 5, 6, 2)[gsel]
@@ -103,7 +103,18 @@ def opentype_rt(container, tagging, vector, codec, gsel, which, n, o0, o1, f0, k
         dopts["decodeOpenTypes"] = True
     if override:
         dopts["openTypes"] = dict((key, mk_type(INNER[w_])) for key, w_ in OVERRIDE.items())
-    w, rest = dec.decode(substrate(octets), asn1Spec=spec, **dopts)
+    if streaming:
+        # the same options through the public StreamingDecoder
+        import io as _io
+        from vfw import streams as _vs
+
+        sub = _vs.SymStream(octets) if _vs.SYMBOLIC else _io.BytesIO(bytes(octets))
+        objs = [o_ for o_ in dec.StreamingDecoder(sub, asn1Spec=spec, **dopts)]
+        if len(objs) != 1 or isinstance(objs[0], error.SubstrateUnderrunError):
+            return "streaming decoder did not yield exactly one object"
+        w, rest = objs[0], b""
+    else:
+        w, rest = dec.decode(substrate(octets), asn1Spec=spec, **dopts)
     if len(rest) != 0:
         return "remainder left"
     if int(w["id"]) != g:
@@ -135,7 +146,7 @@ def opentype_rt(container, tagging, vector, codec, gsel, which, n, o0, o1, f0, k
 
 
 P = {"container": I(0, 1), "tagging": I(0, 2), "vector": I(0, 2), "codec": I(0, 3), "gsel": I(0, 4), "which": I(1, 4), "n": I(127, 128), "o0": BYTE, "o1": BYTE,
-     "f0": B, "k": I(0, 1), "nelem": I(0, 2), "resolve": B, "override": B}
+     "f0": B, "k": I(0, 1), "nelem": I(0, 2), "resolve": B, "override": B, "streaming": B}
 
 
 def _shards(tier):
